@@ -163,8 +163,10 @@ theorem list_by_int_src_eq (sizes : Limits.SizeCfg) (kind : Limits.SeqK) (left :
         else .error (.other 1) := by
   unfold SrcSeq.list_by_int Limits.listByIntCheck
   rw [SrcLimits.limit_memory_usage_src_eq]
-  cases Limits.limitMemory engine [(-right + 1, sizes.tupleHdr), (right, sizes.seqSize kind left.length)] <;>
-    simp [Py.repeat_, Seq.listByInt]
+  first
+    | (cases Limits.limitMemory engine [(-right + 1, sizes.tupleHdr), (right, sizes.seqSize kind left.length)] <;>
+        simp [Py.repeat_, Seq.listByInt]; done)
+    | grind [Py.repeat_, Seq.listByInt]
 
 theorem int_by_list_src_eq (sizes : Limits.SizeCfg) (kind : Limits.SeqK) (left : Int) (right : List Value) (engine : Int) :
     SrcSeq.int_by_list sizes kind left right engine
@@ -204,7 +206,8 @@ theorem delete_src_eq (collection : List Value) (position count : Int) :
   rw [show (0 : Int) = ((0 : Nat) : Int) from rfl, delete_go position count _ (by py_body)]
   simp
 
-theorem replace_many_go (pos count : Int) (vals : List Value)
+/-- the loop of `replace` / `replace_many` with the state `(out, yielded)` -/
+theorem replace_go_oy (pos count : Int) (vals : List Value)
     (f : List Value × Bool → Int × Value → List Value × Bool)
     (hf : ∀ out y i t, f (out, y) (i, t)
       = if ((count ≥ 0 ∧ (pos ≤ i ∧ i < pos + count)) ∨ (count < 0 ∧ i ≥ pos))
@@ -221,20 +224,14 @@ theorem replace_many_go (pos count : Int) (vals : List Value)
     · cases done <;> simp [h, this]
     · simp [h, this]
 
-theorem replace_many_src_eq (collection : List Value) (position : Int) (values : List Value) (count : Int) :
-    SrcSeq.replace_many collection position values count = Seq.replaceMany position count values collection := by
-  unfold SrcSeq.replace_many Seq.replaceMany
-  simp only [enumerate_eq]
-  rw [show (0 : Int) = ((0 : Nat) : Int) from rfl, replace_many_go position count values _ (by py_body)]
-  simp
-
-theorem replace_go (pos count : Int) (v : Value)
+/-- the same loop with the state `(yielded, out)` -/
+theorem replace_go_yo (pos count : Int) (vals : List Value)
     (f : Bool × List Value → Int × Value → Bool × List Value)
     (hf : ∀ y out i t, f (y, out) (i, t)
       = if ((count ≥ 0 ∧ (pos ≤ i ∧ i < pos + count)) ∨ (count < 0 ∧ i ≥ pos))
-        then (if y = true then (y, out) else (true, out ++ [v])) else (y, out ++ [t]))
+        then (if y = true then (y, out) else (true, out ++ vals)) else (y, out ++ [t]))
     (xs : List Value) (i : Nat) (acc : List Value) (done : Bool) :
-    (List.foldl f (done, acc) (Py.enumFrom (i : Int) xs)).2 = acc ++ Seq.replaceFrom pos count [v] i done xs := by
+    (List.foldl f (done, acc) (Py.enumFrom (i : Int) xs)).2 = acc ++ Seq.replaceFrom pos count vals i done xs := by
   induction xs generalizing i acc done with
   | nil => simp [Seq.replaceFrom]
   | cons x xs ih =>
@@ -245,11 +242,24 @@ theorem replace_go (pos count : Int) (v : Value)
     · cases done <;> simp [h, this]
     · simp [h, this]
 
+theorem replace_many_src_eq (collection : List Value) (position : Int) (values : List Value) (count : Int) :
+    SrcSeq.replace_many collection position values count = Seq.replaceMany position count values collection := by
+  unfold SrcSeq.replace_many Seq.replaceMany
+  simp only [enumerate_eq]
+  rw [show (0 : Int) = ((0 : Nat) : Int) from rfl]
+  first
+    | rw [replace_go_oy position count values _ (by py_body)]
+    | rw [replace_go_yo position count values _ (by py_body)]
+  simp
+
 theorem replace_src_eq (collection : List Value) (position : Int) (value : Value) (count : Int) :
     SrcSeq.replace collection position value count = Seq.replace position count value collection := by
   unfold SrcSeq.replace Seq.replace Seq.replaceMany
   simp only [enumerate_eq]
-  rw [show (0 : Int) = ((0 : Nat) : Int) from rfl, replace_go position count value _ (by py_body)]
+  rw [show (0 : Int) = ((0 : Nat) : Int) from rfl]
+  first
+    | rw [replace_go_yo position count [value] _ (by py_body)]
+    | rw [replace_go_oy position count [value] _ (by py_body)]
   simp
 
 /-! ### insert -/
@@ -292,48 +302,73 @@ theorem insert_go (pos : Int) (vals : List Value) (f : Int × List Value → Int
           rw [if_neg h1, if_neg h2, if_neg h3]
           simp
 
-theorem insert_many_src_eq (collection : List Value) (position : Int) (values : List Value) :
-    SrcSeq.insert_many collection position values = Seq.insertMany position values collection := by
-  unfold SrcSeq.insert_many Seq.insertMany
-  simp only [enumerate_eq]
-  rw [show (0 : Int) = ((0 : Nat) : Int) from rfl, insert_go position values _ (by py_body)]
-  simp only [Int.natCast_zero, Int.sub_zero, Int.zero_add, List.nil_append]
-  have hi : (if collection = [] then (-1 : Int) else (collection.length : Int) - 1) = (collection.length : Int) - 1 := by
-    cases collection <;> simp
-  rw [hi]
-  by_cases h0 : position < 0
-  · have h1 : ¬ (position > (collection.length : Int) - 1) := by omega
-    have h2 : ¬ (0 ≤ position ∧ position < (collection.length : Int)) := by omega
+/-- the whole loop from index 0, starting with `i = -1` -/
+theorem insert_go0 (pos : Int) (vals : List Value) (f : Int × List Value → Int × Value → Int × List Value)
+    (hf : ∀ s i t, f s (i, t) = (i, (if i = pos then s.2 ++ vals else s.2) ++ [t]))
+    (xs : List Value) (acc : List Value) :
+    List.foldl f (-1, acc) (Py.enumFrom 0 xs)
+      = ((xs.length : Int) - 1,
+         acc ++ (if 0 ≤ pos ∧ pos < (xs.length : Int)
+                 then xs.take pos.toNat ++ vals ++ xs.drop pos.toNat else xs)) := by
+  have := insert_go pos vals f hf xs 0 (-1) acc
+  simp only [Int.natCast_zero, Int.sub_zero, Int.zero_add] at this
+  rw [this]
+  cases xs <;> simp
+
+/-- what `insert_many` does around its loop -/
+theorem insert_many_fin (pos : Int) (vals xs : List Value) :
+    (if pos > (xs.length : Int) - 1
+     then ((if pos < 0 then vals else []) ++
+            (if 0 ≤ pos ∧ pos < (xs.length : Int) then xs.take pos.toNat ++ vals ++ xs.drop pos.toNat else xs)) ++ vals
+     else (if pos < 0 then vals else []) ++
+            (if 0 ≤ pos ∧ pos < (xs.length : Int) then xs.take pos.toNat ++ vals ++ xs.drop pos.toNat else xs))
+      = Seq.insertMany pos vals xs := by
+  unfold Seq.insertMany
+  by_cases h0 : pos < 0
+  · have h1 : ¬ (pos > (xs.length : Int) - 1) := by omega
+    have h2 : ¬ (0 ≤ pos ∧ pos < (xs.length : Int)) := by omega
     rw [if_neg h1, if_pos h0, if_pos h0, if_neg h2]
-  · by_cases h1 : position > (collection.length : Int) - 1
-    · have h2 : ¬ (0 ≤ position ∧ position < (collection.length : Int)) := by omega
-      have h3 : collection.length ≤ position.toNat := by omega
+  · by_cases h1 : pos > (xs.length : Int) - 1
+    · have h2 : ¬ (0 ≤ pos ∧ pos < (xs.length : Int)) := by omega
+      have h3 : xs.length ≤ pos.toNat := by omega
       rw [if_pos h1, if_neg h0, if_neg h0, if_neg h2, List.take_of_length_le h3, List.drop_of_length_le h3]
       simp
-    · have h2 : (0 ≤ position ∧ position < (collection.length : Int)) := by omega
+    · have h2 : (0 ≤ pos ∧ pos < (xs.length : Int)) := by omega
       rw [if_neg h1, if_neg h0, if_neg h0, if_pos h2]
       simp
 
-theorem iter_insert_src_eq (collection : List Value) (position : Int) (value : Value) :
-    SrcSeq.iter_insert collection position value = Seq.iterInsert position value collection := by
-  unfold SrcSeq.iter_insert Seq.iterInsert Seq.insertMany
-  simp only [enumerate_eq]
-  rw [show (0 : Int) = ((0 : Nat) : Int) from rfl, insert_go position [value] _ (by py_body)]
-  simp only [Int.natCast_zero, Int.sub_zero, Int.zero_add, List.nil_append]
-  have hi : (if collection = [] then (-1 : Int) else (collection.length : Int) - 1) = (collection.length : Int) - 1 := by
-    cases collection <;> simp
-  rw [hi]
-  by_cases h0 : position < 0
-  · have h1 : ¬ (position > (collection.length : Int) - 1) := by omega
-    have h2 : ¬ (0 ≤ position ∧ position < (collection.length : Int)) := by omega
+/-- what `iter_insert` does around its loop -/
+theorem iter_insert_fin (pos : Int) (v : Value) (xs : List Value) :
+    (if pos > (xs.length : Int) - 1
+     then (if 0 ≤ pos ∧ pos < (xs.length : Int) then xs.take pos.toNat ++ [v] ++ xs.drop pos.toNat else xs) ++ [v]
+     else (if 0 ≤ pos ∧ pos < (xs.length : Int) then xs.take pos.toNat ++ [v] ++ xs.drop pos.toNat else xs))
+      = Seq.iterInsert pos v xs := by
+  unfold Seq.iterInsert Seq.insertMany
+  by_cases h0 : pos < 0
+  · have h1 : ¬ (pos > (xs.length : Int) - 1) := by omega
+    have h2 : ¬ (0 ≤ pos ∧ pos < (xs.length : Int)) := by omega
     rw [if_neg h1, if_pos h0, if_neg h2]
-  · by_cases h1 : position > (collection.length : Int) - 1
-    · have h2 : ¬ (0 ≤ position ∧ position < (collection.length : Int)) := by omega
-      have h3 : collection.length ≤ position.toNat := by omega
+  · by_cases h1 : pos > (xs.length : Int) - 1
+    · have h2 : ¬ (0 ≤ pos ∧ pos < (xs.length : Int)) := by omega
+      have h3 : xs.length ≤ pos.toNat := by omega
       rw [if_pos h1, if_neg h0, if_neg h0, if_neg h2, List.take_of_length_le h3, List.drop_of_length_le h3]
       simp
-    · have h2 : (0 ≤ position ∧ position < (collection.length : Int)) := by omega
+    · have h2 : (0 ≤ pos ∧ pos < (xs.length : Int)) := by omega
       rw [if_neg h1, if_neg h0, if_neg h0, if_pos h2]
+
+theorem insert_many_src_eq (collection : List Value) (position : Int) (values : List Value) :
+    SrcSeq.insert_many collection position values = Seq.insertMany position values collection := by
+  unfold SrcSeq.insert_many
+  simp only [enumerate_eq]
+  rw [insert_go0 position values _ (by py_body)]
+  simpa using insert_many_fin position values collection
+
+theorem iter_insert_src_eq (collection : List Value) (position : Int) (value : Value) :
+    SrcSeq.iter_insert collection position value = Seq.iterInsert position value collection := by
+  unfold SrcSeq.iter_insert
+  simp only [enumerate_eq]
+  rw [insert_go0 position [value] _ (by py_body)]
+  simpa using iter_insert_fin position value collection
 
 /-! ### `split_where` (a `while` loop over indices) -/
 
@@ -429,8 +464,12 @@ theorem split_where_src_eq (fuel : Nat) (collection : List Value) (predicate : V
     (by intro out s e v h; simp only [h]; py_body) fuel [] 0 0
     (Nat.le_refl _) (Nat.zero_le _) (by omega) 0 0 rfl rfl w hw
   subst h1
-  simp only []
-  rw [h2]
-  simp
+  by_cases hs : s' = collection.length
+  · have hs' : ¬ ((s' : Int) ≠ (collection.length : Int)) := by omega
+    rw [if_neg hs'] at h2
+    simpa [hs] using h2
+  · have hs' : (s' : Int) ≠ (collection.length : Int) := by omega
+    rw [if_pos hs'] at h2
+    simpa [hs', Ne.symm hs'] using h2
 
 end Yaql.Props.SrcSeq
